@@ -1,6 +1,7 @@
 /* C07 / C08 monitor: random and exhaustive seek histories on encoder-made chained
    streams, judged against a linear reference decode and the harness's own page scan. */
 #include "common.h"
+#include "spec.h"
 #include <math.h>
 
 typedef struct {
@@ -247,7 +248,27 @@ static void run_case(const drvargs_t *a,long id){
   gen_chain(&r, exhaustive?3:(a->thorough?8:5), maxN, GC_ALLOW_EMPTY|GC_MULTICH|GC_MANAGED|GC_BIGPAGES, &cd);
   if(exhaustive) for(int i=0;i<cd.nlinks;i++){ if(cd.cfg[i].channels>2 && cd.cfg[i].channels<=8) cd.cfg[i].channels=2; }
   chain_describe(&cd,desc,sizeof desc);
-  if(build_chain(&cd,&phys,s.linkoff)){ res_sample("encoder setup refused: %s",desc); res_end(); buf_free(&phys); return; }
+  /* every 4th case some links are model-made (block sizes 64..8192 in any pair, floor 0, end-trimmed last packet, ...) */
+  int modelmask=0; if(id%4==3){ for(int i=0;i<cd.nlinks;i++) if(rng_chance(&r,0.5)) modelmask|=1<<i; if(!modelmask) modelmask=1<<rng_below(&r,(uint32_t)cd.nlinks); }
+  if(!modelmask){ if(build_chain(&cd,&phys,s.linkoff)){ res_sample("encoder setup refused: %s",desc); res_end(); buf_free(&phys); return; } }
+  else {
+    size_t dl=strlen(desc);
+    for(int i=0;i<cd.nlinks;i++){
+      s.linkoff[i]=phys.n;
+      if(modelmask&(1<<i)){
+        sp_setup *S=NULL; for(int t=0;t<50;t++){ S=sp_gen_setup(&r,(int)rng_below(&r,SP_NPROFILES),1); if(S->channels<=8 && ((long)S->channels<<S->bs1exp)<=(1L<<15)) break; sp_free_setup(S); S=NULL; }
+        if(!S){ res_sample("no model setup"); res_end(); buf_free(&phys); return; }
+        pktlist_t pk; pktlist_init(&pk); int np=(int)rng_range(&r,2,exhaustive?12:50); sp_gen_stream(&r,S,np,&pk,(int)rng_below(&r,2));
+        mux_stream(&pk,cd.serial[i],cd.policy[i],cd.fill[i],cd.muxseed+i,&phys); pktlist_free(&pk);
+        if(dl+50<sizeof desc) dl+=snprintf(desc+dl,sizeof desc-dl," {link %d model ch%d bs%d/%d %dpk}",i,S->channels,1<<S->bs0exp,1<<S->bs1exp,np);
+        cd.cfg[i].nsamples=-1; sp_free_setup(S);
+      } else {
+        encres_t er; if(enc_run(&cd.cfg[i],&er)){ encres_free(&er); res_sample("encoder setup refused: %s",desc); res_end(); buf_free(&phys); return; }
+        mux_stream(&er.pk,cd.serial[i],cd.policy[i],cd.fill[i],cd.muxseed+i,&phys); encres_free(&er);
+      }
+    }
+    s.linkoff[cd.nlinks]=phys.n;
+  }
   vh_dump("stream.ogg",phys.p,phys.n);
   s.d=phys.p; s.n=phys.n; s.nlinks=cd.nlinks;
   if(ref_decode(s.d,s.n,0,&s.ref)){
@@ -257,7 +278,7 @@ static void run_case(const drvargs_t *a,long id){
   /* linear read delivered 0..total-1 without holes (checked inside ref_decode); lengths equal what was encoded */
   if(s.ref.nlinks!=cd.nlinks) res_viol("C09","link-count","opened %d links, muxed %d",s.ref.nlinks,cd.nlinks);
   else for(int i=0;i<cd.nlinks;i++){
-    if(s.ref.l[i].len!=cd.cfg[i].nsamples) res_viol("C04","link-length","link %d reports %lld samples, %ld encoded",i,(long long)s.ref.l[i].len,cd.cfg[i].nsamples);
+    if(cd.cfg[i].nsamples>=0 && s.ref.l[i].len!=cd.cfg[i].nsamples) res_viol("C04","link-length","link %d reports %lld samples, %ld encoded",i,(long long)s.ref.l[i].len,cd.cfg[i].nsamples);
     if(s.ref.l[i].nout!=s.ref.l[i].len && s.ref.l[i].len>0) res_viol("C07","linear-read-short","link %d delivered %ld of %lld",i,s.ref.l[i].nout,(long long)s.ref.l[i].len);
   }
   stream_index(&s);
